@@ -26,11 +26,12 @@ type seqCtl struct {
 	cur      int64 // goroutine id of the current backend's sequencer (0 = not seen yet)
 	retired  map[int64]bool
 	hold     map[string]bool
+	skip     map[string]int // arrivals at a held point that are let through first
 	parkedAt string
 }
 
 var ctl = func() *seqCtl {
-	c := &seqCtl{retired: map[int64]bool{}, hold: map[string]bool{}}
+	c := &seqCtl{retired: map[int64]bool{}, hold: map[string]bool{}, skip: map[string]int{}}
 	c.cond = sync.NewCond(&c.mu)
 	return c
 }()
@@ -52,7 +53,9 @@ func yieldHook(point string) {
 			ctl.cur = gid
 			ctl.cond.Broadcast()
 		}
-		if ctl.hold[point] {
+		if ctl.hold[point] && ctl.skip[point] > 0 {
+			ctl.skip[point]--
+		} else if ctl.hold[point] {
 			ctl.parkedAt = point
 			ctl.cond.Broadcast()
 			for ctl.hold[point] {
@@ -69,9 +72,13 @@ func yieldHook(point string) {
 	}
 }
 
-func (c *seqCtl) holdAt(point string) {
+func (c *seqCtl) holdAt(point string) { c.holdAtNth(point, 1) }
+
+// holdAtNth parks the sequencer at its n-th arrival at point.
+func (c *seqCtl) holdAtNth(point string, n int) {
 	c.mu.Lock()
 	c.hold[point] = true
+	c.skip[point] = n - 1
 	c.mu.Unlock()
 }
 func (c *seqCtl) waitParked(point string) bool {
@@ -164,7 +171,25 @@ func (w *bw) pump() { // eager consumer
 	w.mu.Unlock()
 }
 
+// engGate holds one goroutine at its next engine batch (lib.Wrap.Before), so that writes with later
+// revisions complete first.
+type engGate struct {
+	gid     int64
+	reached chan struct{}
+	release chan struct{}
+}
+
+func (g *engGate) before(kind string, key []byte) error {
+	if kind == "batch" && atomic.LoadInt64(&g.gid) != 0 && lib.GoID() == atomic.LoadInt64(&g.gid) {
+		atomic.StoreInt64(&g.gid, 0)
+		close(g.reached)
+		<-g.release
+	}
+	return nil
+}
+
 type bkRig struct {
+	gate  *engGate
 	b     backend.Backend
 	hk    *hooks
 	sc    *script
@@ -187,8 +212,8 @@ func newBkRig(l int, c0 uint64, scratch string) (*bkRig, error) {
 	}
 	hk := newHooks()
 	hk.exempt.Store(lib.GoID(), true)
-	r := &bkRig{hk: hk, sc: &script{}, l: l, c0: c0, rev: c0, ref: map[string]refKV{}, kinds: map[string]bool{}}
-	r.b = backend.NewBackend(kv, backend.Config{Prefix: "/", Identity: "c05", WatchCacheSize: l}, &lib.NopMetrics{Hook: hk.metric})
+	r := &bkRig{hk: hk, sc: &script{}, l: l, c0: c0, rev: c0, ref: map[string]refKV{}, kinds: map[string]bool{}, gate: &engGate{}}
+	r.b = backend.NewBackend(&lib.Wrap{KvStorage: kv, Before: r.gate.before}, backend.Config{Prefix: "/", Identity: "c05", WatchCacheSize: l}, &lib.NopMetrics{Hook: hk.metric})
 	r.b.SetCurrentRevision(c0)
 	if !ctl.waitSeen() {
 		return nil, fmt.Errorf("sequencer goroutine not seen")
@@ -380,6 +405,107 @@ func (r *bkRig) writeHeld(o wop, point string) func() {
 		r.sc.labs("LSeqSend", lHubItem())
 		r.hubItemDone(1)
 		r.sc.note("released %s", point)
+	}
+}
+
+// writeOutOfOrder: a create of a fresh key is held at the engine while the following writes (later revisions)
+// complete; when it is let go the sequencer finds all slots filled and forms one batch with mixed keys.
+func (r *bkRig) writeOutOfOrder(rnd *lib.Rand, n int) {
+	r.fresh++
+	key := []byte(fmt.Sprintf("/%s/n%d", []string{"a", "b"}[r.fresh%2], r.fresh))
+	val := []byte(fmt.Sprintf("f%d", r.fresh))
+	g := r.gate
+	g.reached, g.release = make(chan struct{}), make(chan struct{})
+	type res struct {
+		resp *proto.CreateResponse
+		err  error
+	}
+	done := make(chan res, 1)
+	go func() {
+		atomic.StoreInt64(&g.gid, lib.GoID())
+		resp, err := r.b.Create(context.Background(), &proto.CreateRequest{Key: key, Value: val})
+		done <- res{resp, err}
+	}()
+	select {
+	case <-g.reached:
+	case <-time.After(5 * time.Second):
+		r.failf("held create did not reach the engine")
+		return
+	}
+	r.rev++
+	held := slot{rev: r.rev, verb: 0, key: key, val: val, valid: true}
+	pos := len(r.sigma)
+	var others []slot
+	for i := 0; i < n; i++ {
+		others = append(others, r.exec(r.genOp(rnd)))
+	}
+	close(g.release)
+	x := <-done
+	if x.err != nil || !x.resp.Succeeded || x.resp.Header.Revision != held.rev {
+		r.failf("held create %q: err=%v resp=%v, expected success at revision %d", key, x.err, x.resp, held.rev)
+		held.valid = false
+	}
+	if held.valid {
+		r.ref[string(key)] = refKV{val, held.rev}
+		r.sigma = append(r.sigma[:pos], append([]ev{held.event()}, r.sigma[pos:]...)...)
+	}
+	last := held
+	nvalid := 0
+	for _, sl := range append([]slot{held}, others...) {
+		r.sc.lab(lTake(sl))
+		if sl.valid {
+			r.sc.lab("LSeqCache")
+			nvalid++
+		}
+		last = sl
+	}
+	last.valid = nvalid > 0
+	r.through(last)
+	if nvalid > 0 {
+		r.sc.labs("LSeqSend", lHubItem())
+		r.hubItemDone(nvalid)
+	}
+	r.kinds["out-of-order-completion"] = true
+	r.sc.note("out of order: create %q held at the engine (rev %d) while %d later writes completed; one batch of %d events", key, held.rev, n, nvalid)
+}
+
+// writeBatchPartial: k+m successful writes form one batch; the sequencer is parked before the cache insert of
+// the (k+1)-th, i.e. with k events of the batch cached and none broadcast. The returned function lets it go.
+func (r *bkRig) writeBatchPartial(rnd *lib.Rand, k, m int) func() {
+	ctl.holdAt("seq.idle")
+	if !ctl.waitParked("seq.idle") {
+		r.failf("sequencer did not park at seq.idle")
+	}
+	var sls []slot
+	for i := 0; i < k+m; i++ {
+		sl := r.exec(r.validOp(rnd))
+		if !sl.valid {
+			r.failf("a write expected to succeed failed")
+		}
+		sls = append(sls, sl)
+	}
+	ctl.holdAtNth("seq.before_cache", k+1)
+	ctl.release("seq.idle")
+	if !ctl.waitParked("seq.before_cache") {
+		r.failf("sequencer did not park at seq.before_cache")
+	}
+	for i, sl := range sls[:k+1] {
+		r.sc.lab(lTake(sl))
+		if i < k {
+			r.sc.lab("LSeqCache")
+		}
+	}
+	r.kinds["cache-read-inside-a-batch"] = true
+	r.sc.note("batch of %d: %d cached, sequencer parked before caching rev %d", k+m, k, sls[k].rev)
+	return func() {
+		ctl.release("seq.before_cache")
+		r.through(sls[len(sls)-1])
+		r.sc.lab("LSeqCache")
+		for _, sl := range sls[k+1:] {
+			r.sc.labs(lTake(sl), "LSeqCache")
+		}
+		r.sc.labs("LSeqSend", lHubItem())
+		r.hubItemDone(len(sls))
 	}
 }
 
@@ -671,6 +797,25 @@ func bkScenario(w *coll, rnd *lib.Rand, l int, scratch string, nWatch int, seq i
 		// a write held in stage B is let go right after the cache read, one held in stage C after Watch returned
 		stB := mkStage(&relB)
 		stC := mkStage(&relC)
+		// the whole registration inside the window in which an event is committed but not cached / cached but
+		// not broadcast (or a batch is half cached)
+		var relA func()
+		if rnd.Chance(1, 4) {
+			switch rnd.Intn(3) {
+			case 0:
+				relA = r.writeHeld(r.validOp(rnd), "seq.before_cache")
+			case 1:
+				relA = r.writeHeld(r.validOp(rnd), "seq.before_broadcast")
+			default:
+				relA = r.writeBatchPartial(rnd, 1+rnd.Intn(2), 1+rnd.Intn(2))
+			}
+			r.kinds["registration-inside-producer-window"] = true
+			stB, stC = func() {}, func() {}
+			if rnd.Bool() {
+				S, what = r.pickS(rnd, 4+rnd.Intn(3))
+				r.kinds[what] = true
+			}
+		}
 		wt := r.watch(S, P, false, stB, func() {
 			if relB != nil {
 				relB()
@@ -683,6 +828,9 @@ func bkScenario(w *coll, rnd *lib.Rand, l int, scratch string, nWatch int, seq i
 		}
 		if relC != nil {
 			relC()
+		}
+		if relA != nil {
+			relA()
 		}
 		if wt.dead {
 			continue
@@ -701,6 +849,80 @@ func bkScenario(w *coll, rnd *lib.Rand, l int, scratch string, nWatch int, seq i
 		r.finish(x, true)
 	}
 	r.close(w, "backend-watch")
+}
+
+// bkWindow (fixed corpus): write r+1; the sequencer is parked at `point` for write r+2; the hub has drained;
+// Watch(prefix, start = r+1) registers completely inside that window; release; write r+3.
+// The stream must be [r+1, r+2, r+3]: the cache insert precedes the broadcast.
+func bkWindow(w *coll, scratch string, point string, l int) {
+	r, err := newBkRig(l, 100, scratch)
+	if err != nil {
+		w.Fail(lib.ImplFailure{CaseID: -1, What: "cannot build backend: " + err.Error()})
+		return
+	}
+	key := []byte("/a/x")
+	r.write([]wop{{kind: 0, key: []byte("/b/x"), val: []byte("u")}, {kind: 0, key: key, val: []byte("v1")}})
+	S := r.rev
+	rel := r.writeHeld(wop{kind: 1, key: key, val: []byte("v2"), exp: r.rev}, point)
+	wt := r.watch(S, []byte("/a/"), false, nil, nil)
+	rel()
+	r.write([]wop{{kind: 2, key: key, exp: 0}})
+	r.settle(wt, true)
+	r.finish(wt, true)
+	r.kinds["registration-inside-producer-window"] = true
+	r.close(w, "backend-window-"+point)
+}
+
+// bkMulti: several live watchers with different prefixes (and one on a common prefix) fed by batches that
+// contain several events with mixed prefixes; every watcher must get exactly its own events.
+func bkMulti(w *coll, rnd *lib.Rand, scratch string, l int) {
+	r, err := newBkRig(l, 200, scratch)
+	if err != nil {
+		w.Fail(lib.ImplFailure{CaseID: -1, What: "cannot build backend: " + err.Error()})
+		return
+	}
+	r.kinds[fmt.Sprintf("cache=%d", l)] = true
+	r.kinds["multi-watcher"] = true
+	r.write(r.genOps(rnd, 2+rnd.Intn(4)))
+	var live []*bw
+	start := func(P []byte, which int) {
+		S, what := r.pickS(rnd, which)
+		r.kinds[what] = true
+		x := r.watch(S, P, false, nil, nil)
+		if !x.dead {
+			live = append(live, x)
+		}
+	}
+	start([]byte("/a/"), 0)
+	start([]byte("/b/"), 5+rnd.Intn(3))
+	start([]byte("/"), 3+rnd.Intn(4))
+	for round := 0; round < 3+rnd.Intn(3) && r.fail == ""; round++ {
+		switch rnd.Intn(4) {
+		case 0:
+			r.writeBatch(r.genOps(rnd, 3+rnd.Intn(5)))
+		case 1:
+			r.writeOutOfOrder(rnd, 2+rnd.Intn(3))
+		case 2:
+			// a further watcher registers while a mixed batch is half cached: its revision filter cuts the batch
+			rel := r.writeBatchPartial(rnd, 1+rnd.Intn(2), 1+rnd.Intn(3))
+			S, what := r.pickS(rnd, 3+rnd.Intn(4))
+			r.kinds[what] = true
+			x := r.watch(S, rnd.PickB(prefixPool[:4]), false, nil, nil)
+			rel()
+			if !x.dead {
+				live = append(live, x)
+			}
+		default:
+			r.write(r.genOps(rnd, 1+rnd.Intn(3)))
+		}
+		for _, x := range live {
+			r.settle(x, true)
+		}
+	}
+	for _, x := range live {
+		r.finish(x, true)
+	}
+	r.close(w, "backend-multi-watcher")
 }
 
 // overflow: a client that never reads. The hub buffer (10000), the batch processEvents holds and the
